@@ -71,6 +71,12 @@ fn main() {
             let lines = t.finish();
             println!("{}", serde_json::json!({"runs": runs, "events": lines}));
         }
+        "options" => {
+            let mut t = Trace::create(job["out"].as_str().unwrap());
+            let runs = vharness::writers::run_options(&job, &mut t);
+            let lines = t.finish();
+            println!("{}", serde_json::json!({"runs": runs, "events": lines}));
+        }
         "blocklist" => {
             let mut t = Trace::create(job["out"].as_str().unwrap());
             let runs = vharness::metah::run_blocklist(&job, &mut t);
